@@ -1,13 +1,36 @@
 import TracklibVerif.Model.Graph
+import TracklibVerif.Model.GraphPathExt
 import TracklibVerif.Drv.Util
 import TracklibVerif.Drv.C06
-/-! Driver handler for C07 (shortest path reconstruction), weights in `Rat`, points on the integer lattice.
+/-! Driver handler for C07 (shortest path reconstruction), weights in `Rat` (or `Float`, commands prefixed with `f`), points on the integer lattice.
+The backward pass is run through the TRACK operators of the C04 model (`TV.GraphExt.runBackwardT`): every vertex
+occurrence (node positions first, then the vertices of the edge polylines in order) is an observation with its own
+tag; the reply gives the coordinates of the observations of the returned track.
+
   paths <n> <edges> <pos> <lines> <cut>
      edges as for C06; `<pos>` = `x,y` per node (`;`), `<lines>` = one flat list `x,y,x,y,…` per edge (`;`, same
      order as the edges; an edge without vertices is `e`)
-     → for every ordered pair (s,t), s-major, joined by `|`:  `none` | `diverge` | `<nodes>:<x,y,x,y,…>` -/
+     → for every ordered pair (s,t), s-major, joined by `|`:  `<path>@<label>` where `<path>` is
+       `none` | `diverge` | `<nodes>:<x,y,x,y,…>` (`shortest_path(s,t,cut)` on a fresh network) and `<label>` is
+       `NODES[t].poids` after the call (`none` = -1)
+  session <n> <order> <edges> <pos> <lines> <af> <ops>
+     a sequence of calls on ONE network. `<af>` = 1: every edge geometry with at least one vertex carries an
+     analytical feature (`speed`), 0: none does. `<ops>` = `;`-separated, fields separated by `:`; a node is `<id>` (given by
+     id) or `o<id>` (given as a Node object); `<d>` = 1 when the session's `output_dict` is passed:
+        `P:<s>:<t>:<cut>:<d>`     shortest_path            → `<path>@<label>`
+        `D:<s>:<t|->:<cut>:<d>`   shortest_distance        → `d=<label>` | `l=<labels in insertion order>`
+        `F:<s>:<t|->:<cut>:<d>`   run_routing_forward      → `ok`
+        `B:<t>`                   run_routing_backward     → `<path>@<label>` | `attr` (no search yet: AttributeError)
+     → the outputs joined by `|` (`_` when there is no op), then `#`, then the entries `s,v,d` (`;`) of the session's
+       `output_dict`
+  build <n> <pre> <edges> <ends> <post>
+     the network as `addNode` / `addEdge` fill it: `<pre>` / `<post>` = `addNode` calls before / after the edges, each `v,x,y`
+     (`;`); `<ends>` = per edge `sx,sy,tx,ty`, the coordinates of the two Node objects given to `addEdge`
+     → `NEXT_EDGES` of the nodes 0..n-1 (edge ids `,`, lists `;`, an empty list is `e`) `#` the stored position `x,y` of
+       every node (`-` = not registered) `#` the node ids in insertion order
+  fpaths / fsession: the same with weights, cut-offs and labels as IEEE-754 bit patterns (model instantiated at `Float`) -/
 namespace TV.Drv.C07
-open TV.Graph TV.Drv
+open TV.Graph TV.GraphExt TV.Drv
 
 def pts? : List Int → Option (List (Int × Int))
   | [] => some []
@@ -20,26 +43,147 @@ def line? (s : String) : Option (List (Int × Int)) :=
 def showPts (l : List (Int × Int)) : String :=
   joinWith "," (l.map (fun p => s!"{p.1},{p.2}"))
 
-def showBack : Back (Int × Int) → String
+/-- observations tagged `start, start+1, …` -/
+def tagged (af : Bool) (start : Nat) (k : Nat) : List Seq.Obs :=
+  (List.range k).map (fun j => { tag := start + j, time := 0, feats := if af then [1] else [] })
+
+/-- the tracks of the edges (by position), given the number of vertices of each, tags from `start` on -/
+def edgeTracks (af : Bool) : Nat → List Nat → List Seq.Track
+  | _, [] => []
+  | start, k :: ks => ⟨tagged af start k, if af && k != 0 then [("speed", 0)] else []⟩ :: edgeTracks af (start + k) ks
+
+structure Scene where
+  geo : GeoT
+  coords : Array (Int × Int)
+
+section generic
+variable {W : Type} (pw : String → Option W) (sw : W → String)
+
+def scene (net : Net W) (af : Bool) (posl : List (Int × Int)) (ls : List (List (Int × Int))) : Scene :=
+  let trs := (net.edges.map (·.id)).zip (edgeTracks af net.n (ls.map (·.length)))
+  { geo := { pos := fun v => { tag := v, time := 0, feats := [] },
+             geom := fun i => ((trs.find? (fun p => p.1 == i)).map (·.2)).getD emptyT },
+    coords := (posl ++ ls.flatten).toArray }
+
+def showBackT (sc : Scene) : BackT → String
   | .none => "none"
   | .diverge => "diverge"
-  | .path nodes g => joinWith "," (nodes.map toString) ++ ":" ++ showPts g
+  | .path nodes trk =>
+    if trk.table.isEmpty then
+      joinWith "," (nodes.map toString) ++ ":" ++ showPts (trk.pts.map (fun o => sc.coords.getD o.tag (0, 0)))
+    else "features"
 
-def handle (cmd : String) (args : List String) : String :=
+def showLabel : Option W → String := showOpt sw
+
+def nodeArg? (n : Nat) (s : String) : Option NodeArg :=
+  if s.startsWith "o" then
+    (s.drop 1).toString.toNat?.bind (fun i => if i < n then some (NodeArg.obj i) else none)
+  else s.toNat?.bind (fun i => if i < n then some (NodeArg.id i) else none)
+
+def optNodeArg? (n : Nat) (s : String) : Option (Option NodeArg) :=
+  if s == "-" then some none else (nodeArg? n s).map some
+
+def flag? (s : String) : Option Bool :=
+  if s == "1" then some true else if s == "0" then some false else none
+
+def op? (n : Nat) (s : String) : Option (GraphExt.Op W) :=
+  match splitTok s ':' with
+  | ["P", a, b, c, d] => do
+    let a ← nodeArg? n a
+    let b ← nodeArg? n b
+    let c ← C06.cutW? pw c
+    let d ← flag? d
+    pure (GraphExt.Op.path a b c d)
+  | ["D", a, b, c, d] => do
+    let a ← nodeArg? n a
+    let b ← optNodeArg? n b
+    let c ← C06.cutW? pw c
+    let d ← flag? d
+    pure (GraphExt.Op.dist a b c d)
+  | ["F", a, b, c, d] => do
+    let a ← nodeArg? n a
+    let b ← optNodeArg? n b
+    let c ← C06.cutW? pw c
+    let d ← flag? d
+    pure (GraphExt.Op.fwd a b c d)
+  | ["B", b] => (nodeArg? n b).map GraphExt.Op.back
+  | _ => none
+
+def showOut (sc : Scene) : GraphExt.Out W → String
+  | .path b label => showBackT sc b ++ "@" ++ showLabel sw label
+  | .dist d => "d=" ++ showLabel sw d
+  | .dists l => "l=" ++ joinWith "," (l.map (showLabel sw))
+  | .done => "ok"
+  | .attrErr => "attr"
+
+def showDict (n : Nat) (tb : Table W) : String :=
+  joinWith ";" ((List.range n).flatMap (fun s => (List.range n).filterMap (fun v =>
+    (tb (s, v)).map (fun d => s!"{s},{v},{sw d}"))))
+
+def geometry? (net : Net W) (af : Bool) (pos lines : String) : Option Scene :=
+  match (splitTok pos ';').mapM line?, (splitTok lines ';').mapM line? with
+  | some ps, some ls =>
+    if ps.length == net.n && ps.all (·.length == 1) && ls.length == net.edges.length then
+      some (scene net af (ps.map (fun l => l.headD (0, 0))) ls)
+    else none
+  | _, _ => none
+
+def nodeCall? (n : Nat) (s : String) : Option (Nat × (Int × Int)) :=
+  match (intList? s) with
+  | some [v, x, y] => if 0 ≤ v ∧ v.toNat < n then some (v.toNat, (x, y)) else none
+  | _ => none
+
+def ends? (s : String) : Option ((Int × Int) × (Int × Int)) :=
+  match (intList? s) with
+  | some [a, b, c, d] => some ((a, b), (c, d))
+  | _ => none
+
+def showBuilt (n : Nat) (nb : GraphExt.NetObj W (Int × Int)) : String :=
+  joinWith ";" ((List.range n).map (fun u => if (nb.next u).isEmpty then "e" else joinWith "," ((nb.next u).map toString)))
+    ++ "#" ++ joinWith ";" ((List.range n).map (fun v => match GraphExt.posOf nb v with | some p => s!"{p.1},{p.2}" | none => "-"))
+    ++ "#" ++ joinWith "," (nb.nodes.map (fun p => toString p.1))
+
+variable [LT W] [DecidableLT W] [Add W] [OfNat W 0]
+
+def handleW (cmd : String) (args : List String) : String :=
   match cmd, args with
   | "paths", [n, es, pos, lines, c] =>
-    match C06.net? n es, C06.cut? c, (splitTok pos ';').mapM line?, (splitTok lines ';').mapM line? with
-    | some net, some cut, some ps, some ls =>
-      if ps.length == net.n && ps.all (·.length == 1) && ls.length == net.edges.length then
-        let posl := ps.map (fun l => l.headD (0, 0))
-        let tbl := (net.edges.map (·.id)).zip ls
-        let geo : Geo (Int × Int) :=
-          { pos := fun v => posl.getD v (0, 0),
-            line := fun i => ((tbl.find? (fun p => p.1 == i)).map (·.2)).getD [] }
+    match C06.netW? pw n es, C06.cutW? pw c with
+    | some net, some cut =>
+      match geometry? net false pos lines with
+      | some sc =>
         let res := (List.range net.n).flatMap (fun s => (List.range net.n).map (fun t =>
-          showBack (shortestPath net geo s t cut)))
+          showBackT sc (GraphExt.shortestPathT net sc.geo s t cut) ++ "@" ++ showLabel sw (shortestDistance net s t cut)))
         if res.isEmpty then "_" else "|".intercalate res
-      else "bad-request"
-    | _, _, _, _ => "bad-request"
+      | none => "bad-request"
+    | _, _ => "bad-request"
+  | "build", [n, pre, es, ends, post] =>
+    match C06.netW? pw n es with
+    | some net =>
+      match (splitTok pre ';').mapM (nodeCall? net.n), (splitTok ends ';').mapM ends?, (splitTok post ';').mapM (nodeCall? net.n) with
+      | some pre, some ends, some post =>
+        if ends.length == net.edges.length then
+          let nb0 : GraphExt.NetObj W (Int × Int) := pre.foldl (fun nb c => GraphExt.addNode nb c.1 c.2) GraphExt.NetObj.empty
+          let nb1 := GraphExt.build nb0 ((net.edges.zip ends).map (fun p => (p.1, p.2.1, p.2.2)))
+          showBuilt net.n (post.foldl (fun nb c => GraphExt.addNode nb c.1 c.2) nb1)
+        else "bad-request"
+      | _, _, _ => "bad-request"
+    | none => "bad-request"
+  | "session", [n, order, es, pos, lines, af, ops] =>
+    match C06.netW? pw n es, flag? af with
+    | some net, some af =>
+      match C06.order? net.n order, geometry? net af pos lines, (splitTok ops ';').mapM (op? pw net.n) with
+      | some order, some sc, some ops =>
+        let r := GraphExt.runSession net sc.geo order GraphExt.Sess.start ops
+        joinWith "|" (r.1.map (showOut sw sc)) ++ "#" ++ showDict sw net.n r.2.dict
+      | _, _, _ => "bad-request"
+    | _, _ => "bad-request"
   | _, _ => "bad-request"
+end generic
+
+/-- `paths` / `session`: weights, cut-offs and labels are rationals; `fpaths` / `fsession`: IEEE-754 bit patterns, the
+same model definitions instantiated at `Float` -/
+def handle (cmd : String) (args : List String) : String :=
+  if cmd.startsWith "f" then handleW C06.fl? showFloat (cmd.drop 1).toString args
+  else handleW rat? showRat cmd args
 end TV.Drv.C07
